@@ -301,6 +301,29 @@ def ldm_leftover_accumulates(prog, res):
     res.need(R, 2)
 
 
+def row_hash_bits_fit(prog, res):
+    """T7: the row match finder derives a row index of rowHashLog bits and a tag of ZSTD_ROW_HASH_TAG_BITS bits from ONE 32-bit
+    hash (ZSTD_hashPtr(.., rowHashLog + TAG_BITS, ..) shifts by 32 - bits).  Whatever stores rowHashLog bounds it by a constant
+    that, with the tag, does not exceed 32 - the parameter adjustment is by-passed by ZSTD_compress_advanced()."""
+    R = "T7.row-hash-bits-fit"
+    n = 0
+    for f in prog.all_functions():
+        if not f.file.startswith("lib/compress/"):
+            continue
+        for b, i, x in f.events(lambda y: y.get("k") == "asg" and y.get("op") == "=" and strip_casts(y["lhs"]).get("k") == "mem" and strip_casts(y["lhs"]).get("f") == "rowHashLog"):
+            n += 1
+            r = strip_casts(f.resolve_x(x["rhs"]))
+            arms = [const_val(strip_casts(f.resolve_x(a))) for a in (r.get("t"), r.get("f")) if isinstance(a, dict)] if r is not None and r.get("k") == "cond" else []
+            caps = [a for a in arms if isinstance(a, int)]
+            ok = bool(caps) and min(caps) + 8 <= 32
+            res.check(ok, R, "%s@%s" % (f.name, x.get("l")), f.loc, "rowHashLog = MIN(.., %s): with the 8-bit tag at most 32 hash bits" % (min(caps) if caps else "?"),
+                      "%s stores an unbounded rowHashLog: with hashLog 29/30 and a lazy strategy through ZSTD_compress_advanced() the hash functions shift by 32 - 33 "
+                      "(undefined behaviour)" % f.name)
+    users = [f.name for f in prog.all_functions() if f.file.endswith("zstd_lazy.c") and any(y.get("k") == "mem" and y.get("f") == "rowHashLog" for b, i, y in f.events())]
+    res.check(n >= 1 and len(users) >= 3, R, "sites", "lib/compress", "%d store(s), %d reader(s) in zstd_lazy.c" % (n, len(users)), "rowHashLog stores %d, readers %d" % (n, len(users)))
+    res.need(R, 2)
+
+
 def run(tier):
     res = Result("C01", tier)
     tus, info = extract(["compress", "decompress", "common"])
@@ -314,6 +337,7 @@ def run(tier):
     long_length_bonus(prog, res)
     ldm_leftover_accumulates(prog, res)
     two_repcode_histories(prog, res)
+    row_hash_bits_fit(prog, res)
     t4_common.run(prog, res, "T4.error-discipline", ["lib/compress/"], 220)
     # frozen guards of lib/compress for the error codes this property owns (shared inventory, split by code)
     import json as _json, os as _os
